@@ -96,6 +96,18 @@ def make_source(cfg, seed):
     if src == 'ant':
         a = SpyAntenna(sample_rate=sr, fch1=fch1, ascending=asc, num_pols=npol, t_start=t_start, seed=seed)
         for k, s in enumerate(a.streams):
+            if cfg.get('gated') and k == 0:
+                # (sub-box) a NOISE-FREE first stream carrying a gated tone: on for the first one and a half sub-block windows,
+                # silent until the end of the first block, on again afterwards -- whole sub-blocks of exact zeros follow an active
+                # one, and the filterbank history must still be carried through them (seeded change C02-30)
+                w_ = cfg['M'] * P
+                a_, b_ = 1.5 * w_, (cfg['r'] + 1) * w_
+
+                def gated(ts, f_=(cfg['start_chan'] + 0.3) * chan_bw, t0_=float(t_start), a_=a_, b_=b_, lv_=level):
+                    n_ = np.rint((np.asarray(ts, dtype=float) - t0_) * sr)
+                    return np.where((n_ < a_) | (n_ >= b_), lv_ * np.cos(2 * np.pi * f_ * (np.asarray(ts, dtype=float) - t0_) + 0.3), 0.0)
+                s.add_signal(gated)
+                continue
             if noise:
                 s.add_noise(0.1 * k, noise)
                 if cfg.get('noise2'):
